@@ -235,6 +235,13 @@ thread_local! {
     static MY_SLOT: RefCell<Option<std::sync::Arc<WorkerSlot>>> = RefCell::new(None);
 }
 
+struct BusyGuard;
+impl Drop for BusyGuard {
+    fn drop(&mut self) {
+        crate::allocmeter::HOUSEKEEPING_BUSY.store(false, std::sync::atomic::Ordering::SeqCst);
+    }
+}
+
 fn thread_cpu_ticks(tid: u64) -> Option<u64> {
     let stat = std::fs::read_to_string(format!("/proc/self/task/{}/stat", tid)).ok()?;
     let after = &stat[stat.rfind(')')? + 2..];
@@ -254,6 +261,16 @@ pub fn start_hang_monitor(id: &str, tier: &str, seed: u64, root: PathBuf) {
         let mut seen: std::collections::HashMap<u64, (u64, u64)> = Default::default();
         loop {
             std::thread::sleep(std::time::Duration::from_millis(1500));
+            // stay out of the allocation monitors' measured sections (this thread allocates while it samples)
+            if crate::allocmeter::section_open() {
+                continue;
+            }
+            crate::allocmeter::HOUSEKEEPING_BUSY.store(true, std::sync::atomic::Ordering::SeqCst);
+            if crate::allocmeter::section_open() {
+                crate::allocmeter::HOUSEKEEPING_BUSY.store(false, std::sync::atomic::Ordering::SeqCst);
+                continue;
+            }
+            let _busy = BusyGuard;
             let workers: Vec<std::sync::Arc<WorkerSlot>> = WORKERS.lock().map(|w| w.clone()).unwrap_or_default();
             for w in workers {
                 if w.done.load(std::sync::atomic::Ordering::Relaxed) {
